@@ -72,16 +72,17 @@ Proof. exact render_prints_is_runtime_output. Qed.
 Print Assumptions C01_runtime_output_is_render.
 
 (* The focusing link discharged: for Core translation outputs that are chirality-consistently scoped
-   (cs_prog, Proof/UqAeq.v) and inside the static guard sg_prog bn kr with bn && kr = false
-   (Proof/FocusFrag.v: no by-name value is ever created, or no by-value return continuation), H_focus is
-   a theorem (C03_uniquify_focus_preserves_fragment) and disappears from the composition. *)
+   (cs_prog) and satisfy static_ok (Model/FocusGuard.v: simply typed - tc_prog, the boolean Core type
+   checker with exact annotations - or inside one of the syntactic guards sg_prog), H_focus is a
+   theorem (C03_uniquify_focus_preserves_static) and disappears from the composition.  (H_focus itself,
+   a universal statement over all programs of the right shape, is false: C03_focus_preserves_statement_refuted.) *)
 Theorem C01_compile_correct_focus_discharged_partial :
   H_fun2core -> H_shrink -> H_x86 ->
-  forall (bn kr : bool) (p : fcprog) (c : cprog) (f : fsprog) (a : prog) (cs : list xcode) (nargs : nat) (lc lc' : N)
+  forall (p : fcprog) (c : cprog) (f : fsprog) (a : prog) (cs : list xcode) (nargs : nat) (lc lc' : N)
          (args : list Z) (n : nat) (o : obs),
     annotated_fcprog p = true -> effect_sequenced p = true -> barendregt p = true ->
     compile_prog p = Fun2Core.Ok c -> pre_check c = true -> focus_wf c = true ->
-    cs_prog c = true -> bn && kr = false -> sg_prog bn kr c = true ->
+    cs_prog c = true -> static_ok c = true ->
     focus_prog c = Backend.Ok f -> shrink_prog f = SOk a -> prog_ok a = true ->
     x86_compile (linearize a) lc = Backend.Ok (cs, nargs, lc') ->
     run_fun n p args = o -> out_ok o ->
